@@ -6,7 +6,7 @@ head = subprocess.run(["git", "-C", "/repo", "rev-parse", "--short", "HEAD"], st
 rows = []
 import sys
 ROOT = sys.argv[1] if len(sys.argv) > 1 else "/tmp/wt"
-TAG = {"/tmp/wt": "", "/tmp/wt2": "r2-", "/tmp/wt3": "r3-", "/tmp/wt4": "r4-", "/tmp/wt5": "r5-", "/tmp/wt6": "r6-"}[ROOT]
+TAG = {"/tmp/wt": "", "/tmp/wt2": "r2-", "/tmp/wt3": "r3-", "/tmp/wt4": "r4-", "/tmp/wt5": "r5-", "/tmp/wt6": "r6-", "/tmp/wt7": "r7-"}[ROOT]
 for d in sorted(glob.glob(ROOT + "/C*.out/seed*")):
     prop = re.search(r"/(C\d+)\.out/", d).group(1)
     k = d[-1]
